@@ -4,6 +4,7 @@ import json
 import os
 import re
 import shutil
+import threading
 from concurrent.futures import ThreadPoolExecutor
 
 import vlib
@@ -93,8 +94,9 @@ META = {
                   "U+0530 are not modelled (such inputs are kept out of the correspondence and counted per ecosystem in input_distribution), math/big; regexp is modelled by hand-written scanners/matchers (checked by the parse correspondence on every string). "
                   "The Debian and Red Hat comparators are modelled as tokenise-then-compare AND as the literal interleaved Go loops, "
                   "proved equal (debian_loop_equiv, redhat_loop_equiv). Maven: maven_parse_wf proves that the modelled tokeniser only builds well-formed token lists, so antisymmetry "
-                  "and the laws on D hold for all byte strings. Keyword / weight tables of Maven, Alpine, Packagist, Debian and PyPI are "
-                  "regenerated from the Go source (harness/cmd/semtables -> Semantic/Generated_Tables.v) on every run and USED by the models.",
+                  "and the laws on D hold for all byte strings. Keyword / weight / spelling tables of Maven, Alpine, Packagist, Debian and PyPI are "
+                  "regenerated on every run by PROBING the implementation (harness/cmd/semtables -> Semantic/Generated_Tables.v: what the code does on "
+                  "the probe set) and USED by the models.",
     "design_ref": "DESIGN.md section 5 C07",
 }
 
@@ -137,14 +139,32 @@ NAMES = ["corr_parse_bad", "corr_matrix_bad", "corr_pairs_bad", "spec_parse_tota
          "spec_antisym_total_bad", "spec_pairs_bad", "spec_trans_bad", "spec_rules_bad", "in_domain_count"]
 
 
-def run_coq_file(d, name):
-    rc, out = vlib.sh(["coqc", "-Q", os.path.join(vlib.COQ, "theories"), "Scalibr", name + ".v"], cwd=d, timeout=1500)
-    res = {}
-    for n in NAMES:
-        res[n] = vlib.parse_printed_list(out, n)
-    if rc != 0 or any(v is None for v in res.values()):
-        raise RuntimeError("cases file %s failed: %s" % (name, out[-2000:]))
-    return res
+_REBUILD_LOCK = threading.Lock()
+
+
+def rebuild_tables(ctx):
+    """Another process (bin/seedtest's exit trap restores every committed Generated_*.v) may have replaced the generated
+    tables under us: regenerate them and rebuild what the cases files load."""
+    with _REBUILD_LOCK:
+        tr = translate(ctx)
+        rc, out = ctx.coq_make(["theories/Semantic/Registry.vo"])
+        ctx.notes.append("Generated_Tables.v was replaced by another process during this run: regenerated and rebuilt (rc=%d)" % rc)
+        return tr["ok"] and rc == 0
+
+
+def run_coq_file(d, name, ctx=None):
+    for attempt in range(3):
+        rc, out = vlib.sh(["coqc", "-Q", os.path.join(vlib.COQ, "theories"), "Scalibr", name + ".v"], cwd=d, timeout=1500)
+        res = {}
+        for n in NAMES:
+            res[n] = vlib.parse_printed_list(out, n)
+        if rc == 0 and not any(v is None for v in res.values()):
+            return res
+        if ctx is not None and ("inconsistent assumptions" in out or "Generated_Tables" in out or "gen_" in out) and attempt < 2:
+            rebuild_tables(ctx)
+            continue
+        break
+    raise RuntimeError("cases file %s failed: %s" % (name, out[-2000:]))
 
 
 def observed_cell(sh, i, j):
@@ -295,10 +315,21 @@ def run(ctx):
     if bad:
         ctx.violation({"kind": "gate", "hits": bad}, nofail=True)
     pa = ctx.prove(PROPS, clean=([f for f in files] if ctx.tier == "thorough" else False))
+    if not pa["ok"] and ("gen_" in pa["log_tail"] or "Generated_Tables" in pa["log_tail"] or "inconsistent assumptions" in pa["log_tail"]):
+        # the generated tables were replaced under us (see rebuild_tables): regenerate and prove once more
+        rebuild_tables(ctx)
+        ctx.proof_ok = True
+        pa = ctx.prove(PROPS)
     ctx.log("proof ok=%s obligations=%d closed=%d" % (pa["ok"], pa["obligations"], pa["print_assumptions_closed"]))
     vlib.proof_coverage(ctx, pa)
     # the cases files also need Cases.vo / Registry.vo (not a dependency of the Props file)
     rc, out = ctx.coq_make(["theories/Semantic/Registry.vo"])
+    for _ in range(3):
+        if rc == 0 or not ("gen_" in out or "Generated_Tables" in out or "inconsistent assumptions" in out):
+            break
+        translate(ctx)          # the generated tables were replaced under us: regenerate, rebuild
+        ctx.notes.append("Generated_Tables.v was replaced by another process during this run: regenerated and rebuilt")
+        rc, out = ctx.coq_make(["theories/Semantic/Registry.vo"])
     if rc != 0:
         pa["ok"] = False
         pa["log_tail"] = out[-3000:]
@@ -315,7 +346,9 @@ def run(ctx):
         ctx.violation({"kind": "axioms", "axioms": pa["axioms"]}, nofail=True)
     all_thms = [t for k in implemented() for t in FAMILIES[k]["theorems"]]
     tb_extra = [
-        "translator harness/cmd/semtables (go/ast patterns over semantic/*.go -> Generated_Tables.v; human-readable data)",
+        "translator harness/cmd/semtables: Generated_Tables.v = what the implementation does on a probe set (documented vocabulary + "
+        "every word of every string literal of the ecosystem's source file), obtained through Parse/CompareStr/VerifParse; the systematic "
+        "canonical-rule layer and the correspondence are the judges of these tables",
         "Go harness harness/cmd/semantic (generation, observation of value / error / recovered panic, Coq term printing)",
         "hook /repo/semantic/verif_export.go (VerifParse/VerifDump: JSON dump of the parsed structures)",
         "modelled, not verified: Unicode case mapping of strings.ToLower at or above U+0530 (below: generated toolchain table, swept on every run); math/big; regexp (front ends are hand-written byte scanners / a backtracking matcher, tied by the parse correspondence)",
@@ -359,9 +392,12 @@ def _run_cases(ctx, pa, binp, d, all_thms):
     ctx.log("regression corpus: %d fixed findings replayed, %d misbehaving" % (len(regress), sum(1 for r in regress if r["defect_back"])))
     known = replay_known(ctx, binp, d, props_src) if pa["ok"] else []
 
+    tr2 = translate(ctx)
+    if tr2.get("rewritten_this_run") or tr2.get("compiled_tables_were_stale"):
+        rebuild_tables(ctx)
     keys = sorted(shards.keys())
     with ThreadPoolExecutor(max_workers=14) as ex:
-        results = list(ex.map(lambda k: run_coq_file(d, shards[k]["meta"]["file"]), keys))
+        results = list(ex.map(lambda k: run_coq_file(d, shards[k]["meta"]["file"], ctx), keys))
     ctx.log("coqc evaluated %d cases files" % len(keys))
 
     spec_fail, corr_fail = [], []
